@@ -904,3 +904,22 @@ Print Assumptions C13_absolute_index_negative_verdict.
 Print Assumptions C13_absolute_index_out_of_range_verdict.
 Print Assumptions C13_absolute_index_alias_witness.
 Print Assumptions C13_group_cfg_ok_ignores_index_range.
+
+(* regenerated reading + regenerated verdict = the model verdict on the RAW records of the configuration (relative
+   indexes as listed): rel_dict is idempotent and the verdict reads g_rel only through rel_dict -- Lemmas/CfgRawVerdict.v *)
+From Tealer Require Import CfgRawVerdict.
+Theorem C13_rel_dict_idempotent : forall t : gtxn, rel_dict (normalize t) = rel_dict t.
+Proof. exact rel_dict_idempotent. Qed.
+
+Theorem C13_regenerated_init_then_verdict_equals_model_on_raw_records :
+  forall (funcs : list (func * fn_result)) (checks : bctx -> bool) (dtype : string) (vtypes : option (list string))
+         (cs : list (string * tcontract)) (grp : GroupConfigGroup) (heap : list tobj) (g : gobj),
+  init_group_gen cs grp = Ok (heap, g) ->
+  dtype = "STATELESS" \/ dtype = "STATEFULL" ->
+  group_ok funcs (map (cfg_gtxn cs) (cg_transactions grp)) ->
+  group_verdict_gen funcs checks dtype vtypes (view_group heap g) =
+  Some (group_verdict funcs checks dtype vtypes (map (raw_gtxn cs) (cg_transactions grp))).
+Proof. exact init_then_verdict_raw_eq. Qed.
+
+Print Assumptions C13_rel_dict_idempotent.
+Print Assumptions C13_regenerated_init_then_verdict_equals_model_on_raw_records.
